@@ -472,11 +472,12 @@ def offenders(trace):
     return bad
 
 
-USER_TYPES = {"send": {94}, "shutdown_write": {96}, "close": {96, 97}}
+USER_TYPES = {"send": {94}, "shutdown_write": {96}, "close": {96, 97}, "open_channel": {90}}
 # functions whose critical section the translator may report, per user operation
 OP_FUNCS = {"send": {"Channel._send", "Channel.send", "Channel.sendall", "Channel.send_stderr"},
             "shutdown_write": {"Channel.shutdown", "Channel.shutdown_write", "Channel._send_eof"},
-            "close": {"Channel.close", "Channel._close_internal"}}
+            "close": {"Channel.close", "Channel._close_internal"},
+            "open_channel": {"Transport.open_channel", "Transport.open_session"}}
 LOCK_LINE = re.compile(r"\bself\.lock\.acquire\(|\bwith self\.lock\b")
 
 
@@ -509,10 +510,13 @@ def run_cell(role, name, init, rng, user_send=True, op="send", switch="kexinit",
         if split:
             # the deliberate gap in the delivery eats into the (lowered) gate timeout of waiting user threads
             A.clear_to_send_timeout = CTS_TIMEOUT + (2.5 if keepalive else 1.0)
+        if name == "keepalive-tick":
+            A.clear_to_send_timeout = CTS_TIMEOUT + 1.0     # this cell keeps the traffic held for 0.7 s on purpose
         if name == "keepalive-tick" or keepalive:
             A.set_keepalive(0.3)
         s.mark()
-        s.net.hold()
+        if switch != "kexinit-late":
+            s.net.hold()
         deliver = None
         if ptype:
             b_out0 = len([1 for d, _, _ in B.packetizer.c11_log if d == "out"])
@@ -538,6 +542,12 @@ def run_cell(role, name, init, rng, user_send=True, op="send", switch="kexinit",
                     s.chanA.sendall(payload)
                 elif op == "shutdown_write":
                     s.chanA.shutdown_write()
+                elif op == "open_channel":
+                    import paramiko
+                    try:
+                        A.open_channel("session", timeout=WATCH)
+                    except paramiko.ChannelException:
+                        pass        # a client peer refuses the open: the request was delivered and answered
                 else:
                     s.chanA.close()
                 us["ok"] = True
@@ -562,6 +572,11 @@ def run_cell(role, name, init, rng, user_send=True, op="send", switch="kexinit",
                 obs["user_flag_at_gate"] = ent[0][1] if ent else None
                 if ent and ent[0][1]:
                     _wait(lambda: ent[0][0] in [t for t, _ in s.out_trace()], 3.0)
+                if switch == "kexinit-late":
+                    # a slow writer: the write has reached the peer, but the sender does not get control back until
+                    # the transport thread has read and dispatched the peer's answering KEXINIT
+                    if _wait(lambda: 20 in s.in_trace(), 1.0):
+                        time.sleep(0.15)
             finally:
                 hook_done.set()
 
@@ -647,7 +662,7 @@ def run_cell(role, name, init, rng, user_send=True, op="send", switch="kexinit",
                 if op == "send":
                     st, v = with_watchdog(lambda: _recvn(s.chanB, len(payload)) == payload, WATCH + 2)
                 else:
-                    want = 96 if op == "shutdown_write" else 97
+                    want = {"shutdown_write": 96, "close": 97, "open_channel": 90}[op]
                     st, v = with_watchdog(lambda: _wait(lambda: want in s.b_in(), WATCH), WATCH + 2)
                 obs["delivered_user"] = st == "ok" and bool(v)
                 k21 = obs["out"].index(21)
@@ -816,6 +831,15 @@ def judge(ctx, obs):
                                       "(handling type %d)" % p),
                  case=case, expected="the transport thread never waits on clear_to_send",
                  observed={"gated_type": t, "a_alive": obs["a_alive"], "a_exc": obs["a_exc"], "out": obs["out"]})
+    k20 = [i for i, t in enumerate(obs["out"]) if t == 20]
+    if obs["init"] != "back2back" and len(k20) > 1 and 21 not in obs["out"][k20[0]:k20[1]]:
+        ctx.fail("second-kexinit-inside-one-exchange",
+                 "a second KEXINIT was sent between own KEXINIT and own NEWKEYS (the transport thread did not see that "
+                 "this side had already started the exchange); the peer aborts",
+                 case=case, expected="one KEXINIT per exchange",
+                 observed={"out": obs["out"], "a_exc": obs["a_exc"], "b_exc": obs["b_exc"],
+                           "renegotiate": obs["renegotiate"]})
+        return
     if not obs["offenders"] and not obs["tt_waited"]:
         if not (obs["rekey_done"] and obs["a_alive"] and obs["b_alive"]) or obs["renegotiate"] not in ("ok", "n/a"):
             ctx.fail("session-dies-on-segmented-delivery-during-rekey" if obs.get("split") else "rekey-stalled",
@@ -895,7 +919,10 @@ def run(ctx):
                 "thread calls shutdown_write() / close() while the peer's WINDOW_ADJUST / EOF / CLOSE / data for the "
                 "channel is in flight; 4 cells with the user thread stopped between gate and write when the exchange "
                 "starts; 2 cells with two renegotiate_keys back to back, the second inside the first one's "
-                "_parse_newkeys; 2 cells (8 thorough) with keepalives enabled and a packet arriving in two pieces 0.7 s "
+                "_parse_newkeys; 2 cells where the renegotiate_keys caller gets control back from the KEXINIT write only "
+                "after the peer's KEXINIT was dispatched; 2 cells (6 thorough) where the user thread calls "
+                "open_channel during the exchange with OPEN_FAILURE / data / CHANNEL_OPEN in flight; 2 cells (8 thorough) "
+                "with keepalives enabled and a packet arriving in two pieces 0.7 s "
                 "apart during the exchange; 6 cells (12 thorough) where the held traffic arrives in two segments 0.25 s apart split at "
                 "byte 1..7 (thorough also 9/17/33); quick tier takes every kind once per role with the initiation mode drawn from "
                 "the seed, thorough takes all combinations twice; a cell is non-trivial when something was in "
@@ -938,6 +965,13 @@ def run(ctx):
             for init in (("threshold", "explicit") if ctx.thorough else ("threshold",)):
                 k = rng.randrange(1, 8) if not ctx.thorough or rng.random() < 0.7 else rng.choice([9, 17, 33])
                 plan.append((role, name, init, "send", "kexinit", k))
+    for role in ("client", "server"):
+        # the user thread that called renegotiate_keys() gets control back from the KEXINIT write only after the
+        # transport thread has dispatched the peer's answering KEXINIT (slow / back-pressured writer)
+        plan.append((role, "nothing", "explicit", "send", "kexinit-late", 0))
+        # a user thread opens a channel during own re-key while a message whose handler needs Transport.lock crosses
+        for name in (("open-failure-in", "data", "channel-open") if ctx.thorough else ("open-failure-in",)):
+            plan.append((role, name, rng.choice(["explicit", "threshold"]), "open_channel", "kexinit", 0))
     plan = [x + (False,) for x in plan]
     for role in ("client", "server"):
         plan.append((role, "nothing", "back2back", "send", "completion", 0, False))
